@@ -637,6 +637,7 @@ class Run:
             pass
 
         keep_log, rec.log = rec.log, []
+        bare = _Bare()
         try:
             import warnings as _w
             with _w.catch_warnings():
@@ -646,15 +647,18 @@ class Run:
                     for nm, g in sp["guards"].items():      # attribute guards live on the class
                         if g["kind"] == "attr" and "sm" in g["providers"] and not hasattr(cls, nm):
                             setattr(cls, nm, True)
-                    cls(_Bare())
+                    cls(bare)
                     got = "built"
                 except InvalidDefinition:
                     got = "rejected"
                 except Exception as err:  # noqa: BLE001
                     got = "raised " + type(err).__name__
         finally:
+            side_effects = [e["cb"] for e in rec.log if e.get("k") == "cb_begin"][:4]
             rec.log = keep_log
-        rec.emit("note", what="incomplete-construct", expected="rejected" if missing else "built", got=got, missing=sorted(missing)[:5])
+        stored = getattr(bare, sp.get("state_field", "state"), None)
+        rec.emit("note", what="incomplete-construct", expected="rejected" if missing else "built", got=got, missing=sorted(missing)[:5],
+                 left_behind=(repr(stored)[:40] if stored is not None else None), callbacks_ran=side_effects)
 
     def op_become_clone(self, step):
         """The machine under test is replaced by its deepcopy / pickle round trip and the history goes on
@@ -918,6 +922,8 @@ class Run:
             return
         kind = step["kind"]
         value = eval(step["value_expr"], self.mod.__dict__) if "value_expr" in step else None  # noqa: S307
+        if kind == "model_garbage" and value is None:
+            kind = "csv"          # None in the model means "no state yet", not an unmapped value
         rec.emit("step", op="write", phase="begin", wkind=kind, target=step.get("target"))
         try:
             if kind == "model":
@@ -932,6 +938,23 @@ class Run:
                 foreign = _State("Foreign", value="zz_foreign_value")
                 foreign._set_id("zz_foreign")
                 sm.current_state = foreign
+            elif kind == "model_garbage":
+                # an unmapped value put into the model behind the machine's back: reading the state must
+                # say so (never "no state is active"); the old value is restored afterwards
+                fld = sm.state_field
+                old = getattr(sm.model, fld, None)
+                setattr(sm.model, fld, value)
+                reads = {}
+                try:
+                    reads["is_active"] = [bool(getattr(sm, s.id).is_active) for s in sm.states]
+                except Exception as err:  # noqa: BLE001
+                    reads["is_active"] = type(err).__name__
+                try:
+                    reads["current_state"] = sm.current_state.id
+                except Exception as err:  # noqa: BLE001
+                    reads["current_state"] = type(err).__name__
+                setattr(sm.model, fld, old)
+                rec.emit("note", what="garbage-in-model", reads=reads, value=repr(value)[:40])
             elif kind == "cs_lookalike":
                 from statemachine import State as _State
 
